@@ -194,6 +194,7 @@ class ProofState():
         assert cur_item.rule == "sorry", "apply_tactic: id is not a gap"
 
         pt = tactic.get_proof_term(cur_item.th, args=args, prevs=prevs)
+        assert pt.th.can_prove(cur_item.th), "apply_tactic: tactic does not prove the goal"
         new_prf = pt.export(prefix=id, subproof=False)
 
         self.add_line_before(id, len(new_prf.items) - 1)
